@@ -150,6 +150,14 @@ def addIt {α : Type} (toAurel : String → String) (var : List String) (data : 
     (t : Nat) (arrs : List (Arr3 α)) : Dict String (List (Cell α)) :=
   (var.zip arrs).foldl (fun d va => colAppend d (toAurel va.1) (Cell.arr va.2)) (colAppend data "t" (Cell.t t))
 
+/-- the body of `for iit in it:` -/
+def itStep {α : Type} (toAurel : String → String) (cmax : CMax) (files : List (CFile α)) (rl : Nat)
+    (var : List String) (data : Dict String (List (Cell α))) (iit : Nat) : Option (Dict String (List (Cell α))) :=
+  match readIt cmax files iit rl var with
+  | none => none
+  | some none => some data                                  -- "Could not find checkpoint file"
+  | some (some ta) => some (addIt toAurel var data ta.1 ta.2)
+
 /-- `read_ET_checkpoints(param, var, it=its, rl=rl, restart=r)`; `var` are the
 Einstein Toolkit names (`transform_vars_aurel_to_ET` already applied), `toAurel`
 is `transform_vars_ET_to_aurel`, `files` the checkpoint files of restart `r` -/
@@ -159,10 +167,6 @@ def readCheckpoints {α : Type} (toAurel : String → String) (files : List (CFi
   match findCmax files it with
   | none => none
   | some cmax =>
-    (it.foldlM (fun data iit =>
-        match readIt cmax files iit rl var with
-        | none => none
-        | some none => some data
-        | some (some ta) => some (addIt toAurel var data ta.1 ta.2)) [("t", [])]).map fun d => ⟨it, d⟩
+    (it.foldlM (itStep toAurel cmax files rl var) [("t", [])]).map fun d => ⟨it, d⟩
 
 end AurelVerif.Checkpoint
